@@ -82,7 +82,33 @@ var c15Operands = []c15Operand{
 	{"SafeFormatter re-entering Printf(%w)", reSFw{}, nil, true, true},
 	{"error+SafeFormatter re-entering Printf(%w)", reSFwErr{}, reSFwErr{}, true, false},
 	{"error whose Error panics", panErrT{"eboom"}, panErrT{"eboom"}, false, false},
+	// --- c15BaseOperands ends here; the operands below are used by C15/operand-kinds only: values that are not
+	// errors themselves but CONTAIN errors or have a shape the printer treats on a path of its own
+	{"[]interface{}{err1}", []interface{}{c15e1}, nil, false, true},
+	{"[]interface{}{err1, 2}", []interface{}{c15e1, 2}, nil, false, true},
+	{"[]error{err1}", []error{c15e1}, nil, false, true},
+	{"[]string", []string{"a", "b"}, nil, false, true},
+	{"map[string]interface{}{cause: err1}", map[string]interface{}{"cause": c15e1}, nil, false, true},
+	{"map[string]string", map[string]string{"k": "v"}, nil, false, true},
+	{"[1]error", [1]error{c15e1}, nil, false, true},
+	{"struct{E error}", struct{ E error }{c15e1}, nil, false, true},
+	{"*error", &c15errVar, nil, false, true},
+	{"[]byte", []byte("by"), nil, false, true},
+	{"func", func() {}, nil, false, true},
+	{"Safe([]interface{}{err1})", redact.Safe([]interface{}{c15e1}), nil, true, true},
+	{"Unsafe([]error{err1})", redact.Unsafe([]error{c15e1}), nil, true, true},
+	{"RedactableString", redact.RedactableString("r" + mStart + "x" + mEnd), nil, true, true},
+	{"error+Formatter", errFmtT{"ef"}, errFmtT{"ef"}, false, false},
+	{"error+SafeMessager", errSM{"sm"}, errSM{"sm"}, true, false},
+	{"errors.New", c15eNew, c15eNew, false, false},
 }
+
+const c15BaseOperands = 15
+
+var (
+	c15errVar error = c15e1
+	c15eNew         = errors.New("plain")
+)
 
 // reSFw: a SafeFormatter whose SafeFormat method re-enters the printer with a %w of its own.
 type reSFw struct{}
@@ -296,7 +322,7 @@ func checkC15(c *Ctx) {
 	if !c.Quick() {
 		k = 4
 	}
-	nT, nO := c15BaseTokens, len(c15Operands)
+	nT, nO := c15BaseTokens, c15BaseOperands
 	fe := NewStrEnum(make([]string, nT), k)
 	oe := NewStrEnum(make([]string, nO), 3)
 	c.Section("C15/helper", map[string]interface{}{"tokens": c15Tokens, "max_tokens": k, "operand_kinds": nO, "max_operands": 3, "preceding_calls": len(c15Pre)}, fe.Total, func(i int, w *Worker) {
@@ -344,5 +370,23 @@ func checkC15(c *Ctx) {
 		}
 	})
 	replayers["C15/w-grammar"] = replayers["C15/helper"]
+	// every operand kind at and around the %w position, in a small set of formats
+	okFormats := [][]int{{0}, {12, 0}, {0, 1}, {1, 0}, {0, 0}, {4}, {6}, {7}, {8, 1}, {9, 3}, {0, 13}}
+	nAll := len(c15Operands)
+	c.Section("C15/operand-kinds", map[string]interface{}{"operands": nAll, "formats": len(okFormats), "operand_lists": "every ordered pair with at least one of the extended operands, and every single operand"}, nAll*(nAll+1), func(i int, w *Worker) {
+		a, b := i/(nAll+1), i%(nAll+1)
+		ops := []int{a}
+		if b < nAll {
+			ops = append(ops, b)
+		}
+		for _, toks := range okFormats {
+			cs := c15Case{Toks: toks, Ops: ops, Pre: i % len(c15Pre)}
+			w.Eval()
+			if cl, d := c15Eval(cs, w.SeenS); d != "" {
+				w.Fail(cl, cs, d)
+			}
+		}
+	})
+	replayers["C15/operand-kinds"] = replayers["C15/helper"]
 	c.Assume("the reference for argument consumption is this sandbox's fmt run on the same format with %w rewritten to %v/%Z and sentinel operands")
 }
